@@ -3,9 +3,11 @@
 # /verif/seeded/Cxx-<AB>/ (patch.diff, demo files, meta.json with what was run here).
 import sys, os, json, subprocess, shutil, glob, re, time
 prop, ab = sys.argv[1], sys.argv[2]
-src = '/tmp/sb-out/%s/%s' % (prop, ab)
+root = sys.argv[3] if len(sys.argv) > 3 else 'sb'      # sb = round 1, sc = round 2 (directories /tmp/<root>-out, worktrees /tmp/<root>-Cxx)
+suffix = '' if root == 'sb' else '2'
+src = '/tmp/%s-out/%s/%s' % (root, prop, ab)
 meta = json.load(open(os.path.join(src, 'meta.json')))
-sid = '%s-%s' % (prop, ab)
+sid = '%s-%s%s' % (prop, ab, suffix)
 clean = '/var/tmp/seedv-%s-clean' % sid
 pat = '/var/tmp/seedv-%s-pat' % sid
 def sh(cmd, cwd=None, timeout=1800):
@@ -30,13 +32,13 @@ try:
     for name, tree in (('patched', pat), ('clean', clean)):
         wd = '/var/tmp/seedv-%s-demo-%s' % (sid, name)
         shutil.rmtree(wd, ignore_errors=True); shutil.copytree(src, wd)
-        c = re.sub(r'/tmp/sb-%s' % prop, tree, cmd)
-        c = re.sub(r'/tmp/sb-out/%s/%s/?' % (prop, ab), wd + '/', c)
+        c = re.sub(r'/tmp/%s-%s' % (root, prop), tree, cmd)
+        c = re.sub(r'/tmp/%s-out/%s/%s/?' % (root, prop, ab), wd + '/', c)
         if not c.strip():
             c = 'g++ -std=gnu++17 -I%s/include demo.cpp %s/src/*.cpp %s/src/*/*.cpp -lpthread -lrt -ldl -o demo' % (tree, tree, tree)
         rcb, outb = sh(c, cwd=wd)
-        r2 = re.sub(r'/tmp/sb-out/%s/%s/?' % (prop, ab), wd + '/', run)
-        r2 = re.sub(r'/tmp/sb-%s' % prop, tree, r2)
+        r2 = re.sub(r'/tmp/%s-out/%s/%s/?' % (root, prop, ab), wd + '/', run)
+        r2 = re.sub(r'/tmp/%s-%s' % (root, prop), tree, r2)
         rcr, outr = sh(r2, cwd=wd, timeout=900) if rcb == 0 else (-1, 'build failed: ' + outb)
         res[name] = dict(build_rc=rcb, run_rc=rcr, tail=outr[-300:], build_cmd=c, run_cmd=r2)
         shutil.rmtree(wd, ignore_errors=True)
